@@ -40,8 +40,8 @@ def points_inside_polygon(points, polygon, inside=None, atol=1e-8,
     # Prepare inputs
     nprint = np.int32(nprint)
     atol = np.float64(atol)
-    points = points.astype(np.float64)
-    polygon = polygon.astype(np.float64)
+    points = np.ascontiguousarray(points.astype(np.float64))
+    polygon = np.ascontiguousarray(polygon.astype(np.float64))
     if inside is None:
         inside = np.zeros(len(points), dtype=np.int32)
     else:
